@@ -162,41 +162,56 @@ theorem line_pending (st : PStyle) (calls : List Call) (n k i : Nat) (P0 : List 
   · exact h
   · exact absurd rfl (hd f h f (by simp [hf]))
 
-/-- **State invariant of the line loop** (no `footnote-policy: block`): on exit `act` holds, after what it
-held on entry, exactly the footnotes called on the lines kept; every footnote pending on entry is still
-pending or is one of those. -/
+/-- The outcome cancels the paragraph (`abort`). -/
+def outAbort : LineOutcome → Bool
+  | .done _ => false
+  | .broke a _ _ _ => a
+
+theorem lineFns_sub_calls' (st : PStyle) (calls : List Call) (i : Nat) (g : Fn) (h : g ∈ lineFns st calls i) :
+    g ∈ calls.map (mkFn st) := by
+  simp only [lineFns, List.mem_map, List.mem_filter] at h ⊢
+  obtain ⟨cl, ⟨h1, _⟩, h2⟩ := h
+  exact ⟨cl, h1, h2⟩
+
+/-- **State invariant of the line loop** (any `footnote-policy`): on exit `act` holds, after what it held on
+entry, exactly the footnotes called on the lines kept — followed, when `footnote-policy: block` cancels the
+paragraph, by the footnotes `X` of the abandoned line taken so far (the caller un-lays-out every call of the
+paragraph); every footnote pending on entry is still pending or is one of those. -/
 theorem lineLoopF_state (c : FCtx) (st : PStyle) (calls : List Call) (b : BoxSt) (n : Nat) (lineH : Rat)
     (pie : Bool) (bs : Rat) (k : Nat) (fuel i : Nat) (y : Rat) (s : LineLoop) (fs : FState) (A0 P0 : List Fn)
     (hk : k ≤ i) (hs : s.lines.map Prod.fst = List.range' k (i - k)) (hn : fuel = n - i)
-    (hnb : ∀ c ∈ calls, c.policy ≠ .block)
     (hND : (idxFns st calls (List.range' k (n - k))).Nodup)
     (hP : ∀ g ∈ idxFns st calls (List.range' k (n - k)), g ∈ P0)
     (hA0 : ∀ g ∈ A0, g ∉ P0)
     (hok : StOk fs)
     (hact : act fs = A0 ++ idxFns st calls (List.range' k (i - k)))
     (hJ : ∀ g ∈ P0, g ∈ fs.pending ∨ g ∈ idxFns st calls (List.range' k (i - k))) :
+    ∃ X : List Fn,
     StOk (lineLoopF c st calls b n lineH pie bs fuel i y s fs).2 ∧
     act (lineLoopF c st calls b n lineH pie bs fuel i y s fs).2 =
-      A0 ++ lineFnsList st calls (outLines (lineLoopF c st calls b n lineH pie bs fuel i y s fs).1) ∧
+      A0 ++ lineFnsList st calls (outLines (lineLoopF c st calls b n lineH pie bs fuel i y s fs).1) ++ X ∧
     (∀ g ∈ P0, g ∈ (lineLoopF c st calls b n lineH pie bs fuel i y s fs).2.pending ∨
-      g ∈ lineFnsList st calls (outLines (lineLoopF c st calls b n lineH pie bs fuel i y s fs).1)) := by
+      g ∈ lineFnsList st calls (outLines (lineLoopF c st calls b n lineH pie bs fuel i y s fs).1) ∨ g ∈ X) ∧
+    (∀ g ∈ X, g ∈ calls.map (mkFn st)) ∧
+    (outAbort (lineLoopF c st calls b n lineH pie bs fuel i y s fs).1 = false → X = []) := by
   fun_induction lineLoopF c st calls b n lineH pie bs fuel i y s fs with
   | case1 i y s fs =>
     simp only [outLines, lineFnsList_eq, hs]
-    exact ⟨hok, hact, hJ⟩
+    exact ⟨[], hok, by simpa using hact, fun g hg => by rcases hJ g hg with h | h <;> simp [h], by simp,
+      fun _ => rfl⟩
   | case2 fuel i y s fs resume newPosY dbd offset overflow hov abort stop r lines' hb =>
     obtain ⟨m, hm, hl⟩ := breakLine_lines st n i s.lines pie s.skip resume
     rw [hb] at hl
     simp only at hl
     subst hl
     simp only [outLines]
-    have := break_state c st calls n k i m s.lines fs A0 P0 [] (lineFns st calls i) hs hk (by omega) hm hND hP hA0
-      rfl hok (by simpa using hact) (by intro g hg; rcases hJ g hg with h | h <;> simp [h])
-    exact this
+    obtain ⟨b1, b2, b3⟩ := break_state c st calls n k i m s.lines fs A0 P0 [] (lineFns st calls i) hs hk (by omega)
+      hm hND hP hA0 rfl hok (by simpa using hact) (by intro g hg; rcases hJ g hg with h | h <;> simp [h])
+    exact ⟨[], b1, by simpa using b2, fun g hg => by rcases b3 g hg with h | h <;> simp [h], by simp, fun _ => rfl⟩
   | case3 fuel i y s fs resume newPosY dbd offset overflow hov shift newPosY' lineY mt' fs' hfl ih =>
     obtain ⟨hFp, hFn⟩ := line_pending st calls n k i P0 fs hk (by omega) hND hP hJ
     obtain ⟨F1, F2, hsplit, hokk, hok2, ha2, hp2⟩ :=
-      footLoop_spec c (!s.lines.isEmpty || !pie) bs (newPosY' + offset) (lineFns st calls i) fs hok hFp hFn
+      footLoop_spec c (!s.lines.isEmpty || !pie) pie bs (newPosY' + offset) (lineFns st calls i) fs hok hFp hFn
     rw [hfl] at hokk hok2 ha2 hp2
     simp only at hokk hok2 ha2 hp2
     have hF2 : F2 = [] := hokk trivial
@@ -222,7 +237,7 @@ theorem lineLoopF_state (c : FCtx) (st : PStyle) (calls : List Call) (b : BoxSt)
   | case4 fuel i y s fs resume newPosY dbd offset overflow hov shift newPosY' mt' fs' hfl abort stop r lines' hb =>
     obtain ⟨hFp, hFn⟩ := line_pending st calls n k i P0 fs hk (by omega) hND hP hJ
     obtain ⟨F1, F2, hsplit, hokk, hok2, ha2, hp2⟩ :=
-      footLoop_spec c (!s.lines.isEmpty || !pie) bs (newPosY' + offset) (lineFns st calls i) fs hok hFp hFn
+      footLoop_spec c (!s.lines.isEmpty || !pie) pie bs (newPosY' + offset) (lineFns st calls i) fs hok hFp hFn
     rw [hfl] at hok2 ha2 hp2
     simp only at hok2 ha2 hp2
     obtain ⟨m, hm, hl⟩ := breakLine_lines st n i s.lines pie s.skip resume
@@ -230,18 +245,32 @@ theorem lineLoopF_state (c : FCtx) (st : PStyle) (calls : List Call) (b : BoxSt)
     simp only at hl
     subst hl
     simp only [outLines]
-    refine break_state c st calls n k i m s.lines fs' A0 P0 F1 F2 hs hk (by omega) hm hND hP hA0
-      hsplit hok2 (by rw [ha2, hact]) ?_
-    intro g hg
-    rcases hJ g hg with h | h
-    · by_cases hgF : g ∈ F1
-      · exact Or.inr (Or.inr hgF)
-      · exact Or.inl ((hp2 g).mpr ⟨h, hgF⟩)
-    · exact Or.inr (Or.inl h)
+    obtain ⟨b1, b2, b3⟩ := break_state c st calls n k i m s.lines fs' A0 P0 F1 F2 hs hk (by omega) hm hND hP hA0
+      hsplit hok2 (by rw [ha2, hact]) (by
+        intro g hg
+        rcases hJ g hg with h | h
+        · by_cases hgF : g ∈ F1
+          · exact Or.inr (Or.inr hgF)
+          · exact Or.inl ((hp2 g).mpr ⟨h, hgF⟩)
+        · exact Or.inr (Or.inl h))
+    exact ⟨[], b1, by simpa using b2, fun g hg => by rcases b3 g hg with h | h <;> simp [h], by simp, fun _ => rfl⟩
   | case5 fuel i y s fs resume newPosY dbd offset overflow hov shift newPosY' mt' fs' hfl =>
-    have := footLoop_no_abort c (!s.lines.isEmpty || !pie) bs (newPosY' + offset) (lineFns st calls i) fs
-      (lineFns_policy st calls i hnb)
-    rw [hfl] at this
-    exact absurd rfl this
+    -- `footnote-policy: block` cancels the paragraph: the lines kept so far and the footnotes `F1` of line `i`
+    -- taken so far stay laid out (until `block_container_layout` un-lays-out the whole paragraph)
+    obtain ⟨hFp, hFn⟩ := line_pending st calls n k i P0 fs hk (by omega) hND hP hJ
+    obtain ⟨F1, F2, hsplit, hokk, hok2, ha2, hp2⟩ :=
+      footLoop_spec c (!s.lines.isEmpty || !pie) pie bs (newPosY' + offset) (lineFns st calls i) fs hok hFp hFn
+    rw [hfl] at hok2 ha2 hp2
+    simp only at hok2 ha2 hp2
+    simp only [outLines, lineFnsList_eq, hs]
+    refine ⟨F1, hok2, by rw [ha2, hact], ?_, ?_, by simp [outAbort]⟩
+    · intro g hg
+      rcases hJ g hg with h | h
+      · by_cases hgF : g ∈ F1
+        · exact Or.inr (Or.inr hgF)
+        · exact Or.inl ((hp2 g).mpr ⟨h, hgF⟩)
+      · exact Or.inr (Or.inl h)
+    · intro g hg
+      exact lineFns_sub_calls' st calls i g (by rw [hsplit]; simp [hg])
 
 end Wp.PMF
